@@ -231,10 +231,18 @@ def corpus():
             "checked_log 2 L:3 L:2", "checked_log 2 L:3 L:3", "checked_log 2 L:2 L:3",
             "checked_log10 0 L:", "checked_log2 0 L:", "checked_log2 1 L:1", "checked_log2 1 L:0",
             "log2 1 L:1", "log2 1 L:0", "log10 1 L:1", "log10 0 L:", "log2 0 L:", "log 0 L: L:", "log 1 L:1 L:1"]
-    for bits in (1, 2, 3):
+    for bits in (1, 2, 3, 4, 5):          # 4 is the first width where the constant 10 fits
         for v in range(1 << bits):
             out.append("checked_log10 %d L:%x" % (bits, v))
             out.append("log10 %d L:%x" % (bits, v))
+    for a in range(16):
+        for e in range(16):
+            out.append("log 4 %s %s" % (U(4, a), U(4, e)))
+            out.append("checked_log 4 %s %s" % (U(4, a), U(4, e)))
+        for d in range(0, 7):
+            out.append("root 4 %s Z:%x" % (U(4, a), d))
+        for f in ("log2", "checked_log2"):
+            out.append("%s 4 %s" % (f, U(4, a)))
     # exhaustive at widths 1..3 (and 0)
     for bits in (0, 1, 2, 3):
         m = 1 << bits
@@ -257,7 +265,7 @@ def corpus():
 
 
 def gen(rng, tier):
-    widths = C.WIDTHS_QUICK if tier == "quick" else C.WIDTHS_QUICK + C.WIDTHS_MORE
+    widths = [4] + (C.WIDTHS_QUICK if tier == "quick" else C.WIDTHS_QUICK + C.WIDTHS_MORE)
     out = []
     for bits in widths:
         if tier == "quick":
